@@ -60,6 +60,11 @@ ED = {
         '979b2af17e18e360490951dc61746ded7fad43bfa81d41d817887577de8f19de'),
 }
 
+# RFC 2409 second Oakley group (1024-bit MODP), generator 2: domain parameters for CKM_DH_PKCS_KEY_PAIR_GEN
+DH_P = bytes.fromhex('FFFFFFFFFFFFFFFFC90FDAA22168C234C4C6628B80DC1CD129024E088A67CC74020BBEA63B139B22514A08798E3404DD'
+                     'EF9519B3CD3A431B302B0A6DF25F14374FE1356D6D51C245E485B576625E7EC6F44C42E9A637ED6B0BFF5CB6F406B7ED'
+                     'EE386BFB5A899FA5AE9F24117C4B1FE649286651ECE65381FFFFFFFFFFFFFFFF')
+DH_G = b'\x02'
 P256_OID = bytes.fromhex('06082a8648ce3d030107')        # DER OID prime256v1
 ED25519_OID = bytes.fromhex('06032b6570')               # DER OID 1.3.101.112
 AES128 = bytes(range(0x10, 0x20)); AES192 = bytes(range(0x20, 0x38)); AES256 = bytes(range(0x40, 0x60))
